@@ -332,7 +332,7 @@ mod e2e {
 			for k in 0..per_net {
 				let calm = ctx.rng.chance(1, 4);
 				ctx.run_payment(k as u64 + 1, calm);
-				if ctx.net.nodes[0].node.list_channels().len() < 4 { break; } // a channel closed: start over with a fresh network
+				if ctx.net.nodes[0].node.list_channels().len() < 3 { break; } // a channel closed: start over with a fresh network
 				if ctx.rng.chance(1, 3) { let n = ctx.rng.range(1, 9) as usize; ctx.ticks(n); }
 			}
 			ctx.ticks(10);
